@@ -87,6 +87,7 @@ class C12(Prop):
                     # a sibling of the first model: the same names everywhere, but every extern denotes another
                     # C++ type and every enum has other fields - what a cache keyed by names (not by model) mixes up
                     base = sibling_of(rng, models[0][0])
+                    base['_sibling_of'] = 0
                 variants = [strip(base)] + [f for f in G.faults(rng, base)]
                 # more valid variants on the same model: other configurations
                 for _v in range(3):
@@ -97,6 +98,19 @@ class C12(Prop):
                     variants.append(c2)
                 models.append((base, variants))
             steps = []
+            # a sibling model is built right after the model it was derived from, under the same (valid) configuration
+            # and once more with every port rerouted: whatever the first build left behind under a NAME meets another
+            # meaning of that name
+            for mi in range(1, len(models)):
+                if models[mi][0].get('_sibling_of') == 0:
+                    for all_mts in (False, True):
+                        for k in (0, mi):
+                            v = json.loads(json.dumps(models[k][1][0]))
+                            v['cfg'] = json.loads(json.dumps(models[0][1][0]['cfg']))
+                            if all_mts and not v['cfg'].get('multiclient'):
+                                v['cfg']['ports'] = {'psts': {'w': 'none'}, 'pmts': {'w': 'all'}, 'rsts': {'w': 'none'}, 'rmts': {'w': 'all'}}
+                            steps.append((k, v))
+                    break
             for _s in range(rng.randint(2, 12)):
                 mi = rng.randrange(len(models))
                 steps.append((mi, rng.choice(models[mi][1])))
